@@ -9,7 +9,7 @@ def prof(seed):
     if k == 0:
         return gen.profile(p_dyn=0.6, ops=dict(m_dropdep=4, m_dropforgot=3, repeat=4, sel=3))
     if k == 1:
-        return gen.profile(p_default=0.7, p_twodot=0.5, p_subdir=0.4, ops=dict(m_doswap=5, doadd=2, dorm=2, doedit=2, repeat=3))
+        return gen.profile(p_default=0.7, p_twodot=0.5, p_subdir=0.4, ops=dict(m_doswap=5, doadd=2, dorm=2, dorm_last=2, doedit=2, repeat=3))
     if k == 2:
         return gen.profile(p_watch=0.5, p_always=0.25, ops=dict(watch=5, repeat=4, rm=3, m_failfix=2))
     return gen.profile(ntgt=(5, 12), steps=(10, 24), ops=dict(repeat=4, m_dropdep=1, m_dropforgot=1, m_doswap=1, m_failfix=1, m_stamp=1, m_stampflip=2, edit_back=1), p_stamp=0.35)
